@@ -308,9 +308,14 @@ def find_closure(text, let_name, masked=None):
     """`let NAME = [move] |params| { body };` -> dict(start, params(str), open, close, end(after ';'))."""
     masked = masked if masked is not None else mask(text)
     # `let NAME = [move] |..| {..};`  or  `let NAME = EXPR.map([move] |..| {..});` (closure passed to an adaptor)
-    m = re.search(r'\blet\s+(?:mut\s+)?' + re.escape(let_name) + r'\s*=\s*[^|;{}]*?(?:move\s+)?\|', masked)
-    if not m:
-        raise AnchorLost('closure let %s not found' % let_name)
+    nth = 1
+    if '#' in let_name:
+        let_name, n = let_name.split('#', 1)
+        nth = int(n)
+    ms = list(re.finditer(r'\blet\s+(?:mut\s+)?' + re.escape(let_name) + r'\s*=\s*[^|;{}]*?(?:move\s+)?\|', masked))
+    if len(ms) < nth:
+        raise AnchorLost('closure let %s (occurrence %d) not found' % (let_name, nth))
+    m = ms[nth - 1]
     p0 = m.end()
     p1 = masked.index('|', p0)
     k = p1 + 1
